@@ -384,3 +384,47 @@ package evaluator
 //
 // the code wrapper of a function literal always carries its parameter list, keyword defaults and body
 //@ invariant evaluator.FuncWrapperImpl: self.args != nil && self.kwargs != nil && self.body != nil && self.kwargs.Pairs != nil
+//
+// ---- C07 / C08: errors stop evaluation; operands are evaluated once, left to right ------------------
+//@ traced: evaluator.evalShortCutInfix, evaluator.evalOrNil, evaluator.unpackArrExpansion, evaluator.unpackObjExpansion
+//@ props C07 C08
+//@ spec macro isErr(o object.PanObject) bool = isT(o, *object.PanErr)
+//
+// a op b: a once, then b once, then the operator property of a with b; the first error is returned as is
+// and nothing after it is evaluated
+//@ func evaluator.evalInfix(node, env) res
+//@   requires node != nil && env != nil
+//@   let sc := node.Operator == "||" || node.Operator == "&&"
+//@   ensures  sc ==> ncalls == 1 && called(0, evaluator.evalShortCutInfix) && arg1(0) == node && arg2(0) == env && res == result(0)
+//@   ensures  !sc ==> ncalls >= 1 && called(0, evaluator.Eval) && arg1(0) == node.Left && arg2(0) == env
+//@   ensures  !sc && isErr(result(0)) ==> ncalls == 1 && res == result(0)
+//@   ensures  !sc && !isErr(result(0)) ==> ncalls >= 2 && called(1, evaluator.Eval) && arg1(1) == node.Right && arg2(1) == env
+//@   ensures  !sc && !isErr(result(0)) && isErr(result(1)) ==> ncalls == 2 && res == result(1)
+//@   ensures  !sc && !isErr(result(0)) && !isErr(result(1)) ==> ncalls == 3 && called(2, evaluator.builtInCallProp) && arg1(2) == env && nvarargs(2) == 4 && arg4(2) == result(0) && isT(arg5(2), *object.PanStr) && as(arg5(2), *object.PanStr).Value == node.Operator && arg6(2) == result(1) && res == result(2)
+//@   assigns  EC
+//
+//@ func evaluator.evalPrefix(node, env) res
+//@   requires node != nil && env != nil
+//@   ensures  node.Operator == "*" ==> ncalls == 0 && isErr(res)
+//@   ensures  node.Operator != "*" ==> ncalls >= 1 && called(0, evaluator.Eval) && arg1(0) == node.Right && arg2(0) == env
+//@   ensures  node.Operator != "*" && isErr(result(0)) ==> ncalls == 1 && res == result(0)
+//@   ensures  node.Operator != "*" && !isErr(result(0)) ==> ncalls == 2 && called(1, evaluator.builtInCallProp) && arg1(1) == env && nvarargs(1) == 3 && arg4(1) == result(0) && res == result(1)
+//@   assigns  EC
+//
+//@ func evaluator.evalOrNil(node, env) res
+//@   requires env != nil
+//@   ensures  node == nil ==> ncalls == 0 && res == object.BuiltInNil
+//@   ensures  node != nil ==> ncalls == 1 && called(0, evaluator.Eval) && arg1(0) == node && arg2(0) == env && res == result(0)
+//@   assigns  EC
+//
+// start:stop:step - bounds evaluated in that order; an error in a bound is raised, never stored in the range
+//@ func evaluator.evalRange(node, env) res
+//@   requires node != nil && env != nil
+//@   ensures  ncalls >= 1 && called(0, evaluator.evalOrNil) && arg1(0) == node.Start && arg2(0) == env
+//@   ensures  isErr(result(0)) ==> ncalls == 1 && res == result(0)
+//@   ensures  !isErr(result(0)) ==> ncalls >= 2 && called(1, evaluator.evalOrNil) && arg1(1) == node.Stop
+//@   ensures  !isErr(result(0)) && isErr(result(1)) ==> ncalls == 2 && res == result(1)
+//@   ensures  !isErr(result(0)) && !isErr(result(1)) ==> ncalls == 3 && called(2, evaluator.evalOrNil) && arg1(2) == node.Step
+//@   ensures  !isErr(result(0)) && !isErr(result(1)) && isErr(result(2)) ==> res == result(2)
+//@   ensures  !isErr(result(0)) && !isErr(result(1)) && !isErr(result(2)) ==> isT(res, *object.PanRange) && as(res, *object.PanRange).Start == result(0) && as(res, *object.PanRange).Stop == result(1) && as(res, *object.PanRange).Step == result(2)
+//@   assigns  EC
